@@ -121,11 +121,11 @@ Theorem borders_exact tab from to :
 Proof.
   intros D OK. unfold lids_borders. set (last := N.of_nat (length tab)).
   destruct (bin_search_spec 1 last (fun lid => lid_le tab lid (to, max_u64))) as [r1 [E1 [A1 [A2 [A3 A4]]]]];
-    [lia|intros; eapply lid_le_mono; eauto|].
+    [lia|intros a b Ha Hab Hb Hf; apply (lid_le_mono tab _ D a b); auto|].
   rewrite E1. cbn [bind].
   destruct (bin_search_spec r1 last
               (fun lid => lid_le tab lid (if 0 <? from then (from - 1, max_u64) else (from, 0))))
-    as [r2 [E2 [B1 [B2 [B3 B4]]]]]; [lia|intros; eapply lid_le_mono; eauto; lia|].
+    as [r2 [E2 [B1 [B2 [B3 B4]]]]]; [lia|intros a b Ha Hab Hb Hf; apply (lid_le_mono tab _ D a b); auto; lia|].
   rewrite E2. cbn [bind]. exists r1, (r2 - 1). split; auto. split; auto. split; [lia|]. split; [lia|].
   intros lid d Hd Hl.
   assert (Hin : lid <= last).
